@@ -157,3 +157,82 @@ theorem c13_stop_never_stuck {s : St} (h : Reach lts init s) (hstop : s.stopReq 
   | returned r => exact absurd hr (hnot r)
 
 end GoSup.Props.C12L
+
+namespace GoSup.Props.C12L
+open GoSup.Core GoSup.HttpLts
+open GoSup.CompSeq (Fsm)
+
+/-- the actions of the library's own threads (`Run`, `Reload`), whatever the environment answers -/
+def isLib : Act → Bool
+  | .runEnter | .runBootBegin _ _ | .runProbeOk | .runProbeFail _ | .runToRunning | .runSelCtx | .runSelStop | .runSelErr
+  | .runToStopping | .runStopServer _ | .runFinish
+  | .rlEnter | .rlConfig _ _ | .rlStopOld _ | .rlBootBegin _ | .rlProbeOk | .rlProbeFail _ => true
+  | _ => false
+
+def runRank : RunPc → Nat
+  | .idle => 9 | .entered => 8 | .probing => 7 | .booted => 6 | .select => 5 | .afterSelect => 4 | .toStop => 3
+  | .stopped _ => 2 | .returned _ => 0
+
+def rlRank : RlPc → Nat
+  | .idle => 0 | .entered => 4 | .stopOld => 3 | .toBoot => 2 | .probing => 1
+
+/-- steps the library can still take: what is left of `Run`, of the reload under way, and of the reloads waiting -/
+def measure (s : St) : Nat := runRank s.run + rlRank s.rl + 6 * s.pendingRl
+
+theorem stopServer_pendingRl (s : St) : (stopServer s).pendingRl = s.pendingRl := by
+  unfold stopServer; split
+  · rfl
+  · split <;> rfl
+
+theorem lib_step_decreases (s : St) (a : Act) (s' : St) (hl : isLib a = true) (hs : lts.step s a = some s') :
+    measure s' < measure s := by
+  have hs : step s a = some s' := hs
+  cases a <;> simp only [isLib] at hl <;> simp only [step] at hs
+  all_goals
+    repeat' (split at hs)
+    all_goals first
+      | (cases hs; done)
+      | (cases hs; simp_all [measure, runRank, rlRank, stopServer_run, stopServer_rl, stopServer_pendingRl, create] <;> omega)
+
+end GoSup.Props.C12L
+
+namespace GoSup.Props.C12L
+open GoSup.Core GoSup.HttpLts
+open GoSup.CompSeq (Fsm)
+
+theorem progressActs_lib : ∀ a ∈ progressActs, isLib a = true := by
+  intro a ha
+  simp only [progressActs, List.mem_cons, List.not_mem_nil, or_false] at ha
+  rcases ha with h | h | h | h | h | h | h | h | h | h | h | h <;> subst h <;> rfl
+
+theorem lib_keeps_stopReq (s : St) (a : Act) (s' : St) (hl : isLib a = true) (hs : step s a = some s') (h : s.stopReq = true) :
+    s'.stopReq = true := by
+  cases a <;> simp only [isLib] at hl <;> simp only [step] at hs
+  all_goals
+    repeat' (split at hs)
+    all_goals first
+      | (cases hs; done)
+      | (cases hs; first | exact h | (simp [create, stopServer]; try (split <;> try split) <;> simp_all))
+
+/-- **The library's own steps are bounded** (C14: "`Stop()` still returns"): from any state, the `Run` and `Reload`
+threads can take at most `measure s` steps — what is left of `Run`, of the reload under way and of the reloads that are
+waiting — before new requests arrive. -/
+theorem c14_lib_steps_bounded (s t : St) (as : List Act) (hall : as.all isLib = true) (hrun : run lts s as = some t) :
+    as.length + measure t ≤ measure s :=
+  run_length_le_measure isLib measure lib_step_decreases s t as hall hrun
+
+/-- **`Stop()` returns** (C13, C14) — every interleaving: from every reachable state in which a `Stop()` caller is
+waiting, the library's own steps lead to the return of `Run()` (which releases the caller) within `measure s` steps, and
+by `c14_lib_steps_bounded` they cannot go on for longer: no deadlock, no livelock. -/
+theorem c14_stop_returns {s : St} (h : Reach lts init s) (hstop : s.stopReq = true) :
+    ∃ as t, as.all isLib = true ∧ run lts s as = some t ∧ (∃ r, t.run = .returned r) ∧ as.length ≤ measure s := by
+  apply exists_final_run isLib measure (fun u => Reach lts init u ∧ u.stopReq = true) (fun u => ∃ r, u.run = .returned r)
+  · intro u a u' hp hl hs
+    exact ⟨.step hp.1 hs, lib_keeps_stopReq u a u' hl hs hp.2⟩
+  · intro u hp hf
+    obtain ⟨a, ha, hen⟩ := c13_stop_never_stuck hp.1 hp.2 (fun r hr => hf ⟨r, hr⟩)
+    exact ⟨a, progressActs_lib a ha, hen⟩
+  · exact lib_step_decreases
+  · exact ⟨h, hstop⟩
+
+end GoSup.Props.C12L
